@@ -4,6 +4,7 @@
 #![allow(deprecated)]
 
 mod depgraph;
+mod emit;
 mod env;
 mod inventory;
 mod parse;
@@ -15,6 +16,8 @@ fn main() {
     match mode.as_str() {
         "env" => vpharness::serve(env::handle),
         "parse" => vpharness::serve(parse::handle),
+        "emit" => vpharness::serve(emit::handle),
+        "execd" => emit::execd(&std::env::args().skip(2).collect::<Vec<_>>()),
         "pkg" => vpharness::serve(pkg::handle),
         "inventory" => vpharness::serve(inventory::handle),
         "streams" => streams::streams(&std::env::args().skip(2).collect::<Vec<_>>()),
